@@ -78,6 +78,31 @@ func runC15(c *fw.Case) (o fw.Outcome) {
 	default:
 		sqnUE = rbytes(r, 6)
 	}
+	// caller-owned memory: one case in four passes its inputs as views into ONE record (random order, canary octets in
+	// between, capacity reaching to the end of the record - what a slice of a larger buffer looks like). A callee that
+	// appends to an argument writes into the caller's neighbouring fields; nothing but the output buffers may change.
+	var arena, arenaWas []byte
+	if c.Idx%4 == 1 {
+		arena = bytes.Repeat([]byte{0x5a}, 160)
+		fields := []*[]byte{&sqnNet, &rnd, &amf, &k, &op}
+		r.Shuffle(len(fields), func(i, j int) { fields[i], fields[j] = fields[j], fields[i] })
+		off := r.Intn(4)
+		for _, f := range fields {
+			n := len(*f)
+			copy(arena[off:], *f)
+			*f = arena[off : off+n] // capacity deliberately not limited
+			off += n + r.Intn(3)
+		}
+		arenaWas = append([]byte(nil), arena...)
+		o.Tag("arguments-are-views-into-one-record")
+	}
+	arenaIntact := func(after string) bool {
+		if arena != nil && !bytes.Equal(arena, arenaWas) {
+			o.Fail("caller-memory-overwritten", "after %s the caller's record holding SQN / RAND / AMF / K / OP (arguments are sub-slices of it) changed at octet %d: %x -> %x", after, firstDiff(arena, arenaWas), arenaWas, arena)
+			return false
+		}
+		return true
+	}
 	o.Input = kv("k", hexs(k), "op", hexs(op), "rand", hexs(rnd), "amf", hexs(amf), "sqn_net", hexs(sqnNet), "sqn_ue", hexs(sqnUE))
 	o.Digest = fw.Hash(k, op, rnd, amf, sqnNet, sqnUE)
 	o.Nontrivial = true
@@ -96,6 +121,9 @@ func runC15(c *fw.Case) (o fw.Outcome) {
 		o.Fail("f1", "F1: f1=%x f1*=%x (err %v), TS 35.206 gives %x / %x", macA, macS, err, wMacA, wMacS)
 		return
 	}
+	if !arenaIntact("GenerateOPC / F1") {
+		return
+	}
 	wRes, wCk, wIk, wAk, wAkS := sec.F2345(k, opc, rnd)
 	res, ck, ik, ak, akS := make([]byte, 8), make([]byte, 16), make([]byte, 16), make([]byte, 6), make([]byte, 6)
 	if err := milenage.F2345(opc, k, rnd, res, ck, ik, ak, akS); err != nil || !bytes.Equal(res, wRes) || !bytes.Equal(ck, wCk) || !bytes.Equal(ik, wIk) || !bytes.Equal(ak, wAk) || !bytes.Equal(akS, wAkS) {
@@ -108,6 +136,9 @@ func runC15(c *fw.Case) (o fw.Outcome) {
 	gIk, gCk, gAk, gRes := make([]byte, 16), make([]byte, 16), make([]byte, 6), make([]byte, 8)
 	resLen := uint(8)
 	milenage.MilenageGenerate(opc, amf, k, sqnNet, rnd, autn, gIk, gCk, gAk, gRes, &resLen)
+	if !arenaIntact("F2345 / MilenageGenerate") {
+		return
+	}
 	wAutn := sec.GenerateAUTN(k, opc, rnd, sqnNet, amf)
 	if resLen != 8 || !bytes.Equal(autn, wAutn) || !bytes.Equal(gRes, wRes) || !bytes.Equal(gCk, wCk) || !bytes.Equal(gIk, wIk) {
 		o.Fail("generate", "MilenageGenerate: autn=%x res=%x (len %d); reference autn=%x res=%x", autn, gRes, resLen, wAutn, wRes)
@@ -197,6 +228,7 @@ func runC15(c *fw.Case) (o fw.Outcome) {
 			o.Count("autn_corruptions", 1)
 		}
 	}
+	arenaIntact("Milenage_check / Milenage_auts")
 	return
 }
 
